@@ -1,4 +1,6 @@
 import Goyang.Spec.Tree
+import Goyang.Lemmas.Rounds
+import Goyang.Lemmas.AugmentModel
 /-
 Helper lemmas for C04 (Props/C04.lean): tree predicates along the resolver pipeline.
 -/
@@ -137,10 +139,17 @@ def afterLoop : Array Nat × PState :=
     ((augOrder reg).map (·.seq)).toArray (pstate0 reg opts plug)
 def fixAll (s : PState) : PState :=
   { s with forest := { trees := s.forest.trees.map fun (i, e) => (i, fixChoice e) } }
+/-- The retry rounds after the first `FixChoice` (`for augmentLoop() > 0 { fixChoice() }`): the modules
+still holding pending augments and the state. -/
+def afterRounds : Array Nat × PState :=
+  leftoverRounds reg ((pending0 reg opts plug).foldl (fun n p => n + p.2.length) 0 + 2)
+    ((pending0 reg opts plug).foldl (fun n p => n + p.2.length) 0 + 2)
+    (afterLoop reg opts plug).1 (fixAll (afterLoop reg opts plug).2)
+/-- The reporting sweep (`Augment(true)`) over what the rounds left. -/
 def leftoverPass : PState × Nat :=
-  (afterLoop reg opts plug).1.foldl (fun (acc : PState × Nat) id =>
+  (afterRounds reg opts plug).1.foldl (fun (acc : PState × Nat) id =>
     let (s, p, _) := augmentTree reg id true acc.1
-    (s, acc.2 + p)) (fixAll (afterLoop reg opts plug).2, 0)
+    (s, acc.2 + p)) ((afterRounds reg opts plug).2, 0)
 /-- The state before the deviations are applied. -/
 def preDev : PState :=
   if (leftoverPass reg opts plug).2 > 0 then fixAll (leftoverPass reg opts plug).1 else (leftoverPass reg opts plug).1
@@ -154,6 +163,9 @@ def devStage (f0 : Forest) : Forest × List Err × List String :=
     let (f, es) := applyDeviations reg opts m devs f
     (f, errs ++ es, done ++ [m.name])) (f0, [], [])
 
+-- (`leftoverRounds` is kept folded: the elaborator's `whnf` would otherwise run the rounds on the
+-- stuck module list while it looks for the pair the rounds return)
+attribute [local irreducible] leftoverRounds in
 theorem processAll_eq : processAll reg opts plug =
     if !(stage1Errs reg plug).isEmpty then { errors := canonErrs (stage1Errs reg plug), forest := {}, reg := reg } else
     if !(forestErrs (forest0 reg opts plug)).isEmpty then
@@ -161,6 +173,13 @@ theorem processAll_eq : processAll reg opts plug =
     { errors := canonErrs (forestErrs (preDev reg opts plug).forest ++ (devStage reg opts plug (preDev reg opts plug).forest).2.1),
       forest := (devStage reg opts plug (preDev reg opts plug).forest).1, reg := reg } := by
   rfl
+
+/-- A property of the state that the augment loop and `FixChoice` everywhere preserve holds after the
+retry rounds (the state the reporting sweep starts from). -/
+theorem afterRounds_state (P : PState → Prop)
+    (hloop : ∀ fuel mods s, P s → P (augmentLoop reg fuel mods s).2)
+    (hfix : ∀ s, P s → P (fixAll s)) (h0 : P (pstate0 reg opts plug)) : P (afterRounds reg opts plug).2 :=
+  Rounds.rounds_ind_state reg P hloop hfix _ _ _ _ (hfix _ (hloop _ _ _ h0))
 end Stages
 
 /-! ### `updateAt`, `getAt` -/
@@ -2690,14 +2709,28 @@ theorem ownErr_forestErrs (f : Forest) (id : Nat) (h : RootErrAt f id) : forestE
   obtain ⟨x, hx, rfl⟩ := ht
   exact he (noErrors_own _ (this x (List.mem_of_find?_eq_some hx)))
 
+theorem invA_fixAll (mods : Array Nat) (s : PState) (h : InvA mods s) : InvA mods (fixAll s) :=
+  fun p hp hne => h p hp hne
+
+/-- The two bookkeeping invariants hold after the retry rounds. -/
+theorem rounds_inv (reg : Registry) (opts : Opts) (plug : Plug) :
+    InvB (afterRounds reg opts plug).2 ∧ InvA (afterRounds reg opts plug).1 (afterRounds reg opts plug).2 := by
+  have hl := augmentLoop_inv reg ((pending0 reg opts plug).foldl (fun n p => n + p.2.length) 0 + 2)
+    ((augOrder reg).map (·.seq)).toArray (pstate0 reg opts plug) (invB_pstate0 reg opts plug) (invA_pstate0 reg opts plug)
+  exact Rounds.rounds_ind reg (fun mods s => InvB s ∧ InvA mods s)
+    (fun fuel mods s h => augmentLoop_inv reg fuel mods s h.1 h.2)
+    (fun mods s h => ⟨invB_fixAll s h.1, invA_fixAll mods s h.2⟩) _ _ _ _
+    ⟨invB_fixAll _ hl.1, invA_fixAll _ _ hl.2⟩
+
+attribute [local irreducible] leftoverRounds in
 /-- With no errors returned, no augment is left unapplied. -/
 theorem process_clean_no_pending (reg : Registry) (opts : Opts) (plug : Plug)
     (h : (processAll reg opts plug).errors = []) : NoPending (preDev reg opts plug) := by
   obtain ⟨_, _, h3, _, _⟩ := processAll_clean reg opts plug h
   have hl := augmentLoop_inv reg ((pending0 reg opts plug).foldl (fun n p => n + p.2.length) 0 + 2)
     ((augOrder reg).map (·.seq)).toArray (pstate0 reg opts plug) (invB_pstate0 reg opts plug) (invA_pstate0 reg opts plug)
-  have hleft := leftover_inv reg (afterLoop reg opts plug).1 (fixAll (afterLoop reg opts plug).2)
-    (invB_fixAll _ hl.1) hl.2
+  have hr := rounds_inv reg opts plug
+  have hleft := leftover_inv reg (afterRounds reg opts plug).1 (afterRounds reg opts plug).2 hr.1 hr.2
   intro p hp
   apply Classical.byContradiction
   intro hne
@@ -3664,6 +3697,7 @@ theorem ainv_fixAll {q : Entry → Bool} (hfix : ∀ e, everyNode q e = true →
   intro hn
   exact hfix e (this.1.2 ((noErrors_fixChoice e).1 hn))
 
+attribute [local irreducible] leftoverRounds in
 theorem ainv_preDev (reg : Registry) (opts : Opts) (plug : Plug) {q : Entry → Bool}
     (hq : LocalOK (envOf reg opts plug) q)
     (hfix : ∀ e, everyNode q e = true → everyNode q (fixChoice e) = true) :
@@ -3671,8 +3705,11 @@ theorem ainv_preDev (reg : Registry) (opts : Opts) (plug : Plug) {q : Entry → 
   have hA := augClosed_treeInv hq
   have h1 := augmentLoop_ainv hA reg ((pending0 reg opts plug).foldl (fun n p => n + p.2.length) 0 + 2)
     ((augOrder reg).map (·.seq)).toArray (pstate0 reg opts plug) (ainv_pstate0 reg opts plug hq)
-  have h2 := leftover_ainv hA reg (afterLoop reg opts plug).1 (fixAll (afterLoop reg opts plug).2)
-    (ainv_fixAll hfix _ h1)
+  have hr : AInv (TreeInv q) (TInv q) (afterRounds reg opts plug).2 :=
+    Rounds.rounds_ind_state reg (AInv (TreeInv q) (TInv q))
+      (fun fuel mods s h => augmentLoop_ainv hA reg fuel mods s h)
+      (fun s h => ainv_fixAll hfix s h) _ _ _ _ (ainv_fixAll hfix _ h1)
+  have h2 := leftover_ainv hA reg (afterRounds reg opts plug).1 (afterRounds reg opts plug).2 hr
   unfold preDev
   split
   · exact ainv_fixAll hfix _ h2
@@ -3736,27 +3773,202 @@ theorem choiceCases_fixAll (s : PState) : ForestAll ChoiceCases (fixAll s).fores
   obtain ⟨⟨i, e⟩, _, rfl⟩ := ht
   exact fixChoice_cases e
 
+/-! ### a loop that applies nothing leaves the forest alone, unless something is still pending -/
+
+/-- One step of `Augment`: it applies the augment (`p + 1`) or appends it to the unapplied ones. -/
+theorem augStep_counts (reg : Registry) (id : Nat) (addErrors : Bool) (nsOf : String)
+    (acc : PState × List Entry × Nat × Nat) (a : Entry) :
+    ((augStep reg id addErrors nsOf acc a).2.2.1 = acc.2.2.1 + 1) ∨
+    ((augStep reg id addErrors nsOf acc a).2.2.1 = acc.2.2.1 ∧ (augStep reg id addErrors nsOf acc a).2.1 = acc.2.1 ++ [a]) := by
+  obtain ⟨s, un, p, k⟩ := acc
+  unfold augStep
+  dsimp only
+  generalize find reg s.forest (id, []) a.d.nodeMod a.d.name = r
+  obtain ⟨target, forest⟩ := r
+  dsimp only
+  repeat' split
+  all_goals first
+    | exact Or.inr ⟨rfl, rfl⟩
+    | exact Or.inl rfl
+
+/-- An `Augment` call that applies nothing leaves every pending list as it was, and the forest too
+when the tree has nothing pending. -/
+theorem augmentTree_zero (reg : Registry) (id : Nat) (addErrors : Bool) (s : PState)
+    (h0 : (augmentTree reg id addErrors s).2.1 = 0) :
+    (∀ id', (augmentTree reg id addErrors s).1.pendingOf id' = s.pendingOf id') ∧
+    (s.pendingOf id = [] → (augmentTree reg id addErrors s).1.forest = s.forest) := by
+  rw [augmentTree_eq] at h0 ⊢
+  dsimp only at h0 ⊢
+  refine ⟨?_, ?_⟩
+  · have key := foldl_prefix_inv (fun (done : List Entry) (acc : PState × List Entry × Nat × Nat) =>
+        FLe s.forest acc.1.forest ∧ acc.1.pending = s.pending ∧ (acc.2.2.1 = 0 → acc.2.1 = done))
+      (augStep reg id addErrors (namespaceAt reg s.forest (id, []))) (s.pendingOf id) (s, [], 0, 0)
+      ⟨FLe.refl _, rfl, fun _ => rfl⟩ ?_
+    · obtain ⟨_, k2, k3⟩ := key
+      have hun := k3 h0
+      intro id'
+      rw [AugmentModel.pendingOf_setPending]
+      have hgen : ∀ (a b : PState), a.pending = b.pending → ∀ x, a.pendingOf x = b.pendingOf x := by
+        intro a b hab x; unfold PState.pendingOf; rw [hab]
+      have hpo := hgen _ _ k2
+      by_cases hid : id' = id
+      · subst hid
+        rw [if_pos rfl, k2, hun]
+        cases hf : (s.pending.find? (·.1 == id')).isSome with
+        | true => rfl
+        | false => simp only [Bool.false_eq_true, if_false]; exact (AugmentModel.pendingOf_eq_nil_of_not_found s id' hf).symm
+      · rw [if_neg hid]; exact hpo id'
+    · rintro done a acc ha ⟨i1, i2, i3⟩
+      have st := augStep_ok reg id addErrors (namespaceAt reg s.forest (id, [])) s acc a i1
+      refine ⟨st.fle, st.pend.trans i2, ?_⟩
+      intro hz
+      rcases augStep_counts reg id addErrors (namespaceAt reg s.forest (id, [])) acc a with hc | ⟨hc, hu⟩
+      · rw [hc] at hz; exact absurd hz (by omega)
+      · rw [hu, i3 (by rw [← hc]; exact hz)]
+  · intro hnil
+    rw [hnil]
+    rfl
+
+theorem augmentTree_zero_live (reg : Registry) (id : Nat) (addErrors : Bool) (s : PState)
+    (h0 : (augmentTree reg id addErrors s).2.1 = 0) :
+    (augmentTree reg id addErrors s).1.forest = s.forest ∨ ∃ id', s.pendingOf id' ≠ [] := by
+  by_cases h : s.pendingOf id = []
+  · exact Or.inl ((augmentTree_zero reg id addErrors s h0).2 h)
+  · exact Or.inr ⟨id, h⟩
+
+/-- A pass of the augment loop that applies nothing. -/
+theorem augmentPass_zero (reg : Registry) : ∀ (fuel : Nat) (mods : Array Nat) (i processed : Nat) (s : PState),
+    processed ≤ (augmentPass reg fuel mods i processed s).2.1 ∧
+    ((augmentPass reg fuel mods i processed s).2.1 = processed →
+      (∀ id', (augmentPass reg fuel mods i processed s).2.2.pendingOf id' = s.pendingOf id') ∧
+      ((augmentPass reg fuel mods i processed s).2.2.forest = s.forest ∨ ∃ id', s.pendingOf id' ≠ [])) := by
+  intro fuel
+  induction fuel with
+  | zero => intro mods i processed s; exact ⟨Nat.le_refl _, fun _ => ⟨fun _ => rfl, Or.inl rfl⟩⟩
+  | succ fuel ih =>
+    intro mods i processed s
+    unfold augmentPass
+    split
+    · have hz := augmentTree_zero reg mods[i] false s
+      have hl := augmentTree_zero_live reg mods[i] false s
+      generalize augmentTree reg mods[i] false s = r at hz hl ⊢
+      obtain ⟨s', p, k⟩ := r
+      dsimp only at hz hl ⊢
+      have step : ∀ (mods' : Array Nat) (i' : Nat),
+          processed ≤ (augmentPass reg fuel mods' i' (processed + p) s').2.1 ∧
+          ((augmentPass reg fuel mods' i' (processed + p) s').2.1 = processed →
+            (∀ id', (augmentPass reg fuel mods' i' (processed + p) s').2.2.pendingOf id' = s.pendingOf id') ∧
+            ((augmentPass reg fuel mods' i' (processed + p) s').2.2.forest = s.forest ∨ ∃ id', s.pendingOf id' ≠ [])) := by
+        intro mods' i'
+        obtain ⟨j1, j2⟩ := ih mods' i' (processed + p) s'
+        refine ⟨by omega, ?_⟩
+        intro heq
+        have hp0 : p = 0 := by omega
+        obtain ⟨k1, k2⟩ := j2 (by omega)
+        obtain ⟨z1, _⟩ := hz hp0
+        refine ⟨fun id' => (k1 id').trans (z1 id'), ?_⟩
+        rcases k2 with k2 | ⟨id', k2⟩
+        · rcases hl hp0 with hl | hl
+          · exact Or.inl (k2.trans hl)
+          · exact Or.inr hl
+        · exact Or.inr ⟨id', by rw [← z1 id']; exact k2⟩
+      split
+      · exact step _ _
+      · exact step _ _
+    · exact ⟨Nat.le_refl _, fun _ => ⟨fun _ => rfl, Or.inl rfl⟩⟩
+
+/-- A loop that applied nothing (Go: `augmentLoop() == 0`). -/
+theorem augmentLoop_zero (reg : Registry) (fuel : Nat) (mods : Array Nat) (s : PState)
+    (h : Rounds.loopCount reg fuel mods s = 0) :
+    (∀ id', (augmentLoop reg fuel mods s).2.pendingOf id' = s.pendingOf id') ∧
+    ((augmentLoop reg fuel mods s).2.forest = s.forest ∨ ∃ id', s.pendingOf id' ≠ []) := by
+  rcases (Rounds.loopCount_eq_zero reg fuel mods s).mp h with h1 | h1 | hp
+  · subst h1; exact ⟨fun _ => rfl, Or.inl rfl⟩
+  · rw [Rounds.augmentLoop_empty reg fuel mods s h1]; exact ⟨fun _ => rfl, Or.inl rfl⟩
+  · cases fuel with
+    | zero => exact ⟨fun _ => rfl, Or.inl rfl⟩
+    | succ fuel =>
+      unfold augmentLoop
+      split
+      · exact ⟨fun _ => rfl, Or.inl rfl⟩
+      · have hz := (augmentPass_zero reg (mods.size + 1) mods 0 0 s).2
+        generalize augmentPass reg (mods.size + 1) mods 0 0 s = r at hp hz ⊢
+        obtain ⟨mods', processed, s'⟩ := r
+        dsimp only at hp hz ⊢
+        subst hp
+        simp only [beq_self_eq_true, if_true]
+        exact hz rfl
+
+/-- After the retry rounds every child of every choice is a case, unless something is still
+pending (which the reporting sweep then turns into an error). -/
+theorem rounds_choiceCases (reg : Registry) (fuel : Nat) : ∀ (n : Nat) (mods : Array Nat) (s : PState),
+    ForestAll ChoiceCases s.forest →
+    ForestAll ChoiceCases (leftoverRounds reg fuel n mods s).2.forest ∨
+      ∃ id, (leftoverRounds reg fuel n mods s).2.pendingOf id ≠ []
+  | 0, mods, s, h => by rw [Rounds.leftoverRounds_zero]; exact Or.inl h
+  | n + 1, mods, s, h => by
+    rw [Rounds.leftoverRounds_succ]
+    split
+    · rename_i hc
+      obtain ⟨z1, z2⟩ := augmentLoop_zero reg fuel mods s hc
+      rcases z2 with z2 | ⟨id, z2⟩
+      · left; rw [z2]; exact h
+      · right; exact ⟨id, by rw [z1 id]; exact z2⟩
+    · exact rounds_choiceCases reg fuel n _ _ (choiceCases_fixAll _)
+
+/-- The reporting sweep, when it applies nothing, leaves every pending list as it was. -/
+theorem leftover_zero (reg : Registry) (left : Array Nat) (s : PState) :
+    let r := left.foldl (fun (acc : PState × Nat) id =>
+      let (s, p, _) := augmentTree reg id true acc.1
+      (s, acc.2 + p)) (s, 0)
+    r.2 = 0 → ∀ id', r.1.pendingOf id' = s.pendingOf id' := by
+  intro r
+  simp only [r]
+  rw [← Array.foldl_toList]
+  refine foldl_inv (fun (acc : PState × Nat) => acc.2 = 0 → ∀ id', acc.1.pendingOf id' = s.pendingOf id')
+    _ _ _ (fun _ _ => rfl) ?_
+  rintro ⟨s1, cnt⟩ id _ j
+  dsimp only at j ⊢
+  have hz := augmentTree_zero reg id true s1
+  generalize augmentTree reg id true s1 = r' at hz ⊢
+  obtain ⟨s', p, k⟩ := r'
+  dsimp only at hz ⊢
+  intro h0 id'
+  rw [(hz (by omega)).1 id']
+  exact j (by omega) id'
+
+attribute [local irreducible] leftoverRounds in
 /-- After a clean `Process`, before the deviations, every child of every choice is a case. -/
 theorem preDev_choiceCases (reg : Registry) (opts : Opts) (plug : Plug)
     (h : (processAll reg opts plug).errors = []) : ForestAll ChoiceCases (preDev reg opts plug).forest := by
   obtain ⟨_, _, h3, _, _⟩ := processAll_clean reg opts plug h
-  have hl := augmentLoop_inv reg ((pending0 reg opts plug).foldl (fun n p => n + p.2.length) 0 + 2)
-    ((augOrder reg).map (·.seq)).toArray (pstate0 reg opts plug) (invB_pstate0 reg opts plug) (invA_pstate0 reg opts plug)
-  have hf := leftover_forest reg (afterLoop reg opts plug).1 (fixAll (afterLoop reg opts plug).2) (invB_fixAll _ hl.1)
+  have hr := rounds_inv reg opts plug
+  have hf := leftover_forest reg (afterRounds reg opts plug).1 (afterRounds reg opts plug).2 hr.1
+  have hinv := leftover_inv reg (afterRounds reg opts plug).1 (afterRounds reg opts plug).2 hr.1 hr.2
+  have hzero := leftover_zero reg (afterRounds reg opts plug).1 (afterRounds reg opts plug).2
+  have hcc := rounds_choiceCases reg ((pending0 reg opts plug).foldl (fun n p => n + p.2.length) 0 + 2)
+    ((pending0 reg opts plug).foldl (fun n p => n + p.2.length) 0 + 2)
+    (afterLoop reg opts plug).1 (fixAll (afterLoop reg opts plug).2) (choiceCases_fixAll _)
   unfold preDev at h3 ⊢
   split
   · exact choiceCases_fixAll _
   · rename_i happ
     simp only [happ, if_false] at h3
+    have h0 : (leftoverPass reg opts plug).2 = 0 := by
+      have : ¬ (leftoverPass reg opts plug).2 > 0 := happ
+      omega
     rcases hf with ⟨id, herr⟩ | hf
     · exact absurd h3 (ownErr_forestErrs _ _ herr)
-    · have h0 : (leftoverPass reg opts plug).2 = 0 := by
-        have : ¬ (leftoverPass reg opts plug).2 > 0 := happ
-        omega
-      have := hf h0
-      unfold leftoverPass
-      rw [this]
-      exact choiceCases_fixAll _
+    · have hsame : (leftoverPass reg opts plug).1.forest = (afterRounds reg opts plug).2.forest := hf h0
+      rcases hcc with hcc | ⟨id, hne⟩
+      · rw [hsame]; exact hcc
+      · -- something is still pending after the rounds: the sweep reports it
+        have hne' : (leftoverPass reg opts plug).1.pendingOf id ≠ [] := by
+          rw [show (leftoverPass reg opts plug).1.pendingOf id = (afterRounds reg opts plug).2.pendingOf id from
+            hzero h0 id]
+          exact hne
+        obtain ⟨p0, hp0, h1, h2⟩ := pendingOf_ne_nil _ id hne'
+        exact absurd h3 (ownErr_forestErrs _ _ (hinv p0 hp0 h2))
 
 /-! ### updates by a function that is harmless wherever it is applied -/
 
